@@ -41,15 +41,17 @@ def enc_g(spec, smart):
         skip = "()"
     else:
         skip = ";".join(_chk(s) for s in spec["skip"])
-    items, tmpl, gen, seq, tp, ax = [], [], [], [], [], []
+    items, tmpl, gen, seq, tp, ax, nonull = [], [], [], [], [], [], []
     for sym, alts in spec["prods"]:
         if isinstance(alts, dict):          # a template: its generated productions go to the model as data
-            exp = expand_template(sym, alts, terminal_names(spec))
+            exp = expand_template(sym, alts, spec)
             tmpl.append(sym)
             gen.extend(k for k, _ in exp[1:])
             if alts["t"] == "seq":
                 seq.append(sym)
-            tp.append("%s~%s~%s" % (_chk(sym), alts["t"], ",".join("-" if a is None else _chk(str(a)) for a in alts["args"])))
+            if alts["t"] == "list" and alts["args"][2] is None:
+                nonull.append(_chk(alts["args"][1]))      # ListProds.verify_grammar: the item must not be nullable
+            tp.append("%s~%s~%s" % (_chk(sym), alts["t"], ",".join(_enc_targ(a) for a in alts["args"])))
             entries = exp
         else:
             flat = []
@@ -68,7 +70,8 @@ def enc_g(spec, smart):
     start = "-" if spec["start"] is None else _chk(spec["start"])
     line = "g %d %s %s %s %s %s %s" % (1 if smart else 0, start, tok, syn, kw, skip, prods)
     if tmpl:
-        line += " T=%s/%s/%s TP=%s" % (",".join(tmpl), ",".join(gen) or "-", ",".join(seq) or "-", ";".join(tp))
+        line += " T=%s/%s/%s/%s TP=%s" % (",".join(tmpl), ",".join(gen) or "-", ",".join(seq) or "-",
+                                          ",".join(nonull) or "-", ";".join(tp))
     if ax:
         line += " AX=" + ";".join(ax)
     if spec.get("kinds"):
@@ -76,6 +79,23 @@ def enc_g(spec, smart):
     if spec.get("span"):
         line += " SP=" + ";".join("%s~%s" % (_chk(n), enc_str(rx)) for n, rx in spec["span"].items())
     return line
+
+
+def _enc_targ(a):
+    """an argument of a template: `-` None, a name, or `*x+y` = AnyTokenExcept('x', 'y') (a ProdSequence member)"""
+    if a is None:
+        return "-"
+    if isinstance(a, dict):
+        return "*" + "+".join(_chk(x) for x in a["ax"])
+    return _chk(str(a))
+
+
+def _dec_targ(x):
+    if x == "-":
+        return None
+    if x.startswith("*"):
+        return {"ax": [y for y in x[1:].split("+") if y]}
+    return x
 
 
 def terminal_order(spec):
@@ -123,12 +143,12 @@ def dec_g(line):
     spec["tmpl"], spec["gen"], spec["seq"], spec["tdefs"], spec["kinds"], spec["ax"] = [], [], [], {}, {}, []
     for extra in f[8:]:
         if extra.startswith("T="):
-            a, b, c = extra[2:].split("/")
+            a, b, c = extra[2:].split("/")[:3]
             spec["tmpl"], spec["gen"], spec["seq"] = [[] if x == "-" else x.split(",") for x in (a, b, c)]
         elif extra.startswith("TP="):
             for it in extra[3:].split(";"):
                 sym, kind, args = it.split("~")
-                spec["tdefs"][sym] = {"t": kind, "args": [None if x == "-" else x for x in args.split(",")]}
+                spec["tdefs"][sym] = {"t": kind, "args": [_dec_targ(x) for x in args.split(",")]}
         elif extra.startswith("K="):
             spec["kinds"] = dict(kv.split(":") for kv in extra[2:].split(","))
         elif extra.startswith("SP="):
@@ -164,11 +184,13 @@ def source_prods(spec):
     return out
 
 
-def make_template(tdef):
+def make_template(tdef, ax_item=None):
+    """`ax_item(excl)`: the (possibly caller-owned, shared) AnyTokenExcept object of a ProdSequence member"""
     llp = _llp()
     a = tdef["args"]
     if tdef["t"] == "seq":
-        return llp.ProdSequence(*a)
+        mk = ax_item or (lambda excl: llp.AnyTokenExcept(*excl))
+        return llp.ProdSequence(*[mk(x["ax"]) if isinstance(x, dict) else x for x in a])
     if tdef["t"] == "list":       # open, item, delimiter, close, allow_final_delimiter, optional
         kw = {}
         if a[4] is not None:
@@ -186,10 +208,18 @@ def make_template(tdef):
     raise ValueError(tdef["t"])
 
 
-def expand_template(sym, tdef, terminals):
-    """the productions the template generates for `sym` (the repo's own template classes; C05 is about them)"""
+def expand_template(sym, tdef, spec):
+    """the productions the template generates for `sym`.  ProdSequence(m1, .., mn) = 'any of the members in any order' is
+    expanded by the harness itself: S -> (S__ELEMENT, S) | () ; S__ELEMENT -> (m1,) | .. | (mn,), an AnyTokenExcept
+    member replaced IN PLACE by its one-token alternatives (`ax_tokens`).  ListProds / MapProds: the repo's own template
+    classes (C05 is about them)"""
+    if tdef["t"] == "seq":
+        members = []
+        for m in tdef["args"]:
+            members.extend(ax_tokens(spec, m["ax"]) if isinstance(m, dict) else [m])
+        return [(sym, [[sym + "__ELEMENT", sym], []]), (sym + "__ELEMENT", [[m] for m in members])]
     t = make_template(tdef)
-    t.complete_init(sym, set(terminals), None)
+    t.complete_init(sym, set(terminal_names(spec)), None)
     return [(k, [list(p) if p is not None else [] for p in prods]) for k, prods in t.gen_productions()]
 
 
@@ -362,16 +392,16 @@ def build(spec, smart, trace_budget=None, shared=None):
     exclusion list, used in the grammars of all the parsers of a case"""
     llp = _llp()
     prods = {}
+    def ax_item(excl):
+        if shared is None:
+            return llp.AnyTokenExcept(*excl)
+        if tuple(excl) not in shared:
+            shared[tuple(excl)] = llp.AnyTokenExcept(*excl)
+        return shared[tuple(excl)]
     for sym, alts in source_prods(spec):
         if isinstance(alts, dict):
-            prods[sym] = make_template(alts)
+            prods[sym] = make_template(alts, ax_item)
         else:
-            def ax_item(excl):
-                if shared is None:
-                    return llp.AnyTokenExcept(*excl)
-                if tuple(excl) not in shared:
-                    shared[tuple(excl)] = llp.AnyTokenExcept(*excl)
-                return shared[tuple(excl)]
             prods[sym] = [None if a is None else (ax_item(a["ax"]) if isinstance(a, dict) else tuple(a)) for a in alts]
     kw = {(t, v): t2 for t, v, t2 in spec["kw"]}
     args = dict(productions=prods, synonyms=dict(spec["syn"]) or None, keywords=kw or None,
@@ -605,7 +635,7 @@ def expanded_prods(spec):
     out = []
     for sym, alts in spec["prods"]:
         if isinstance(alts, dict):
-            out.extend(expand_template(sym, alts, terminal_names(spec)))
+            out.extend(expand_template(sym, alts, spec))
         else:
             flat = []
             for a in alts:
@@ -630,7 +660,7 @@ def template_info(spec):
     for sym, alts in spec["prods"]:
         if isinstance(alts, dict):
             tm.add(sym)
-            gen.update(k for k, _ in expand_template(sym, alts, terminal_names(spec))[1:])
+            gen.update(k for k, _ in expand_template(sym, alts, spec)[1:])
             if alts["t"] == "seq":
                 seq.add(sym)
     return tm, gen, seq
@@ -815,6 +845,8 @@ def expected_tokens(case, text, as_lines=False):
             text = text_
     if text in case.get("expect", {}):
         return [tuple(x) for x in case["expect"][text]]
+    if case.get("ctx"):
+        return ctx_tokens(case["ctx"], text, as_lines)
     lm = case["lexmap"]
     skip = set(case.get("skipnames", ()))
     return [(lm[ch], ch) for ch in text if ch in lm and lm[ch] not in skip]
@@ -946,7 +978,86 @@ VARIANTS = {
                     spannoise=[" "]),
     "noskip": dict(tok=[["SPACE", r"\s+"], ["a", "a"], ["b", "b"], ["c", "c"]], syn={}, kw=[], skip=[],
                    T=["a", "b", "c"], lex={"a": "a", "b": "b", "c": "c"}, sep="", noise=""),
+    # token patterns with CONTEXT assertions: what stands IN FRONT of a lexeme decides its name (`^`, look-behind, \b);
+    # the expected tokens come from the hand-written rules CTX_RULES, the texts put every lexeme at line starts, behind
+    # blanks and glued to its neighbours
+    "ctxbol": dict(tok=[["SPACE", r"\s+"], ["a", r"^a"], ["b", "b"], ["c", "a"]], syn={}, kw=[], skip=None,
+                   T=["a", "b", "c"], lex={}, sep=" ", noise="", ctx="bol", ctxlex={"a": ["a"], "b": ["b"], "c": ["a"]}),
+    "ctxbehind": dict(tok=[["SPACE", r"\s+"], ["c", r"(?<=[b\t])a"], ["a", "a"], ["b", "b"]], syn={}, kw=[], skip=None,
+                      T=["a", "b", "c"], lex={}, sep=" ", noise="", ctx="behind", ctxlex={"a": ["a"], "b": ["b"], "c": ["a"]}),
+    "ctxword": dict(tok=[["SPACE", r"\s+"], ["U", "_"], ["A0", r"\ba"], ["c", "a"], ["b", "b"]], syn={"A0": "a"}, kw=[],
+                    skip=["SPACE", "U"], T=["a", "b", "c"], lex={}, sep=" ", noise="", ctx="word",
+                    ctxlex={"a": ["a"], "b": ["b", "_b"], "c": ["a", "_a"]}),
+    "ctxdir": dict(tok=[["SPACE", r"\s+"], ["c", r"^\#[ab]"], ["HASH", r"\#"], ["w", "[ab]"]], syn={},
+                   kw=[["w", "a", "a"], ["w", "b", "b"]], skip=["SPACE", "HASH"],
+                   T=["a", "b", "c"], lex={}, sep=" ", noise="", ctx="dir",
+                   ctxlex={"a": ["a", "#a", "# a"], "b": ["b", "#b"], "c": ["#a", "#b"]}),
+    # five tokens (long list / map inputs); not drawn by gen_spec
+    "plain5": dict(tok=[["SPACE", r"\s+"], ["a", "a"], ["b", "b"], ["c", "c"], ["d", "d"], ["e", "e"]], syn={}, kw=[],
+                   skip=None, T=["a", "b", "c", "d", "e"], lex={"a": "a", "b": "b", "c": "c", "d": "d", "e": "e"}, sep=" ",
+                   noise=""),
 }
+
+
+def _r_bol(line, i):
+    ch = line[i]
+    return (("a" if i == 0 else "c") if ch == "a" else ("b" if ch == "b" else None)), 1
+
+
+def _r_behind(line, i):
+    ch = line[i]
+    return (("c" if i > 0 and line[i - 1] in "b\t" else "a") if ch == "a" else ("b" if ch == "b" else None)), 1
+
+
+def _r_word(line, i):
+    ch = line[i]
+    return (("a" if i == 0 or line[i - 1] not in "ab_" else "c") if ch == "a" else ("b" if ch == "b" else None)), 1
+
+
+def _r_dir(line, i):
+    ch = line[i]
+    if ch == "#":
+        return ("c", 2) if (i == 0 and line[1:2] in ("a", "b")) else (None, 1)
+    return (ch if ch in "ab" else None), 1
+
+
+# the naming rule of a context-sensitive token configuration, written by hand (not with `re`):
+# (line, position) -> (token name | None = skipped, length of the lexeme)
+CTX_RULES = {"bol": _r_bol, "behind": _r_behind, "word": _r_word, "dir": _r_dir}
+
+
+def ctx_tokens(rule, text, as_lines=False):
+    """the non-skipped tokens of a text under a CTX_RULES rule (a str is cut at '\n' and every line right-stripped)"""
+    out = []
+    for line in text.split("\n"):
+        if not as_lines:
+            line = line.rstrip()
+        i = 0
+        while i < len(line):
+            name, n = CTX_RULES[rule](line, i)
+            if name is not None:
+                out.append((name, line[i:i + n]))
+            i += n
+    return out
+
+
+def render_ctx(rng, var, w):
+    """token names -> text for a context-sensitive configuration: every lexeme is tried glued to its neighbour, behind
+    blanks and at a line start, and kept when the hand-written rule gives the wanted tokens for the text so far"""
+    text, got = "", []
+    for t in w:
+        cands = [sep + lx for sep in ("", "", " ", " ", "  ", "\n", "\n", " \n", "\t", "\n ") for lx in var["ctxlex"][t]]
+        rng.shuffle(cands)
+        for c in cands:
+            toks = ctx_tokens(var["ctx"], text + c)
+            if len(toks) == len(got) + 1 and toks[:-1] == got and toks[-1][0] == t:
+                text, got = text + c, toks
+                break
+        else:
+            raise AssertionError("no rendering of %r behind %r" % (t, text))
+    if rng.random() < 0.1:
+        text += " "
+    return text
 NT_POOLS = [
     ["E", "A", "B", "C", "D", "F"],
     ["E", "Z", "N", "M", "A", "K"],
@@ -1004,7 +1115,7 @@ def gen_shaped(rng, T, nts):
         later = nts[i + 1:]
         alts = []
         shape = rng.choice(["prefix", "prefix", "nonadjacent", "chain", "fail-late", "mixed", "prefixperm", "prefixperm",
-                            "wide"])
+                            "prefixperm", "wide"])
 
         def sym(first):
             if first:
@@ -1214,6 +1325,46 @@ def gen_hidden_rec(rng, T, nts):
     return [[nt, _dedupe(g[nt])] for nt in nts]
 
 
+def gen_nobase_cycle(rng, T, nts):
+    """a cycle of 1-3 symbols NONE of which has a base case: every production of a cycle symbol leads back into the
+    cycle (X -> (Y, c) ; Y -> (X, d): nothing is derived, FIRST sets are empty, the parse table has no entry for them),
+    or an epsilon-only cycle (X -> (Y,) | None ; Y -> (X,)); behind nullable prefixes or not; referred to by the other
+    symbols or by nobody; the start symbol inside or outside the cycle. With probability 0.35 one link of the cycle
+    stands behind a token (then nothing reaches itself without a token, although nothing is derived either)."""
+    n = len(nts)
+    k = rng.randint(1 if n < 2 else 2, max(1, min(3, n)))
+    cyc = rng.sample(nts, k) if rng.random() < 0.6 else rng.sample(nts[1:] or nts, min(k, len(nts[1:] or nts)))
+    k = len(cyc)
+    others = [x for x in nts if x not in cyc]
+    eps = rng.random() < 0.35
+    broken = rng.random() < 0.35
+    break_at = rng.randrange(k)
+    nullable_others = [o for o in others if rng.random() < 0.5]
+    g = {}
+    for i, x in enumerate(cyc):
+        nxt = cyc[(i + 1) % k]
+        alts = []
+        for _ in range(rng.choice([1, 1, 2])):
+            pre = [rng.choice(nullable_others) for _ in range(rng.randint(0, 2))] if (nullable_others and rng.random() < 0.4) else []
+            if broken and i == break_at:
+                pre = pre + [rng.choice(T)]
+            tail = [] if eps else [rng.choice(T + nts) for _ in range(rng.randint(1, 2))]
+            alts.append(pre + [rng.choice(cyc) if (len(alts) and rng.random() < 0.5) else nxt] + tail)
+        g[x] = alts
+    if eps and not broken:
+        g[rng.choice(cyc)].append([])             # the cycle is nullable as a whole
+    refer = rng.random() < 0.6
+    for o in others:
+        alts = [[rng.choice(T)] + [rng.choice(T) for _ in range(rng.randint(0, 1))]]
+        if o in nullable_others:
+            alts.append([])
+        if refer and rng.random() < 0.6:
+            alts.append([rng.choice(T), rng.choice(cyc)] + [rng.choice(T)] * rng.randint(0, 1))
+        rng.shuffle(alts)
+        g[o] = alts
+    return [[nt, _dedupe(g[nt])] for nt in nts]
+
+
 def gen_dfs_shapes(rng, T, nts):
     """shapes that exercise the bookkeeping of the recursion DFS: alternatives of one symbol S that start with
     0-2 nullable non-terminals followed by a not nullable non-terminal (visited for the first time inside the
@@ -1358,6 +1509,8 @@ def render(rng, var, w):
     inv = {}
     for ch, name in var["lex"].items():
         inv.setdefault(name, []).append(ch)
+    if "ctx" in var:
+        return render_ctx(rng, var, w)
     if "free" in var:
         inv["w"] = var["free"]
     if "spanlex" in var:       # (text, value) pairs: the value of a span token is its body
@@ -1418,6 +1571,8 @@ def _finish_case(lines, spec, var_name, texts, meta, lexmap):
     exp = {t: render.expect[t] for t in texts if t in render.expect} if ("free" in v_ or "spanlex" in v_) else {}
     if exp:
         case["expect"] = exp
+    if "ctx" in v_:
+        case["ctx"] = v_["ctx"]
     return case
 
 
@@ -1492,19 +1647,38 @@ def gen_templates(rng, T, nts):
         kind = rng.choice(["seq", "seq", "list", "map"])
         if kind == "seq":
             members = rng.sample(T + plain, rng.randint(1, min(3, len(T + plain))))
+            if rng.random() < 0.4:
+                # one AnyTokenExcept member at ANY position of the argument list (first / middle / last); it mostly excludes
+                # the terminals listed explicitly and the first tokens of the other members (else: duplicate / conflict)
+                excl = [m for m in members if m in T] + [x for x in T if rng.random() < 0.5]
+                if rng.random() < 0.15:
+                    excl = rng.sample(T, rng.randint(0, len(T)))
+                members.insert(rng.randint(0, len(members)), {"ax": sorted(set(excl), key=excl.index)})
             tdefs.append([k, {"t": "seq", "args": members}])
         elif kind == "list":
             br = rng.random() < 0.5
             # the delimiter is any symbol: a terminal or a (possibly nullable) non-terminal - then the tail of the list can
-            # reach itself without a token although the list stands behind its opening bracket
-            delim = rng.choice(T) if rng.random() < 0.7 else rng.choice(plain)
-            tdefs.append([k, {"t": "list", "args": [rng.choice(T) if br else None, rng.choice(plain + T), delim,
+            # reach itself without a token although the list stands behind its opening bracket; or there is NO delimiter
+            # (with and without brackets; the item nullable or not: a nullable item is a GrammarError of the template's
+            # own verify_grammar stage)
+            delim = rng.choice(T) if rng.random() < 0.6 else rng.choice(plain)
+            if rng.random() < 0.22:
+                delim = None
+            item = rng.choice(plain + T)
+            if nullable and delim is not None and rng.random() < 0.2:
+                # separator AND item nullable: the tail of the container reaches itself without a token (behind brackets
+                # the cycle consists of generated symbols only and is entered behind a token)
+                item, delim = rng.choice(sorted(nullable)), rng.choice(sorted(nullable))
+            tdefs.append([k, {"t": "list", "args": [rng.choice(T) if br else None, item, delim,
                                                       rng.choice(T) if br else None,
-                                                      rng.choice([None, 0, 1]) if br else None,
+                                                      rng.choice([None, 0, 1] if delim is not None else [None, 0]) if br else None,
                                                       rng.choice([None, 0, 1]) if br else None]}])
         else:
             anysym = lambda: rng.choice(T) if rng.random() < 0.7 else rng.choice(plain)
-            tdefs.append([k, {"t": "map", "args": [rng.choice(T), rng.choice(plain + T), anysym(), rng.choice(plain + T),
+            kv = lambda: rng.choice(plain + T)
+            if nullable and rng.random() < 0.2:        # key, assign, value and delimiter all nullable
+                anysym = kv = lambda: rng.choice(sorted(nullable))
+            tdefs.append([k, {"t": "map", "args": [rng.choice(T), kv(), anysym(), kv(),
                                                      anysym(), rng.choice(T), rng.choice([None, 0, 1]),
                                                      rng.choice([None, 0, 1])]}])
     top = [[rng.choice(tkeys)] + ([rng.choice(T)] if rng.random() < 0.7 else [])]
@@ -1520,7 +1694,7 @@ def gen_templates(rng, T, nts):
                 e[1].append([rng.choice(tkeys)] + [rng.choice(T)] * rng.randint(0, 1))
         gd = dict((k, v) for k, v in g)
         for k, td in tdefs:              # a symbol the container is made of (member, item, key, value, delimiter ...)
-            inner = [a for a in td["args"] if a in gd]
+            inner = [a for a in td["args"] if isinstance(a, str) and a in gd]
             if inner and rng.random() < 0.7:
                 gd[rng.choice(inner)].append([k] + [rng.choice(T)] * rng.randint(0, 1))
     elif r < 0.7:
@@ -1547,9 +1721,9 @@ def gen_templates(rng, T, nts):
     if rng.random() < 0.5:
         # a container at DIFFERENT positions of two alternatives: the second starts with something the container can
         # start with, so the first (failing) match of the container covers the place where it is expanded again
-        seqs_ = [x for x in tdefs if x[1]["t"] == "seq" and any(a in T for a in x[1]["args"])]
+        seqs_ = [x for x in tdefs if x[1]["t"] == "seq" and any(isinstance(a, str) and a in T for a in x[1]["args"])]
         k, td = rng.choice(seqs_) if (seqs_ and rng.random() < 0.7) else rng.choice(tdefs)
-        firsts = [a for a in td["args"] if a in T] or [rng.choice(T)]
+        firsts = [a for a in td["args"] if isinstance(a, str) and a in T] or [rng.choice(T)]
         m = rng.choice(firsts)
         tail = [rng.choice(T)]
         a1 = [k] + [rng.choice(T)] * rng.randint(0, 1) + [rng.choice(T)] + tail
@@ -1575,7 +1749,8 @@ def gen_spec(rng, malformed_share=0.05, hidden_share=0.04, ll1_share=0.2, dfs_sh
              tmpl_share=0.05):
     """-> (spec, variant name, meta)"""
     var_name = rng.choice(["plain"] * 4 + ["syn", "kw", "synkw", "noskip", "swap", "spaceterm", "skipb", "comment",
-                           "skipiter", "free", "kwskip1", "kwskip2", "synid", "synchain", "synchainkw", "wsterm", "span", "spanchain", "kwcross"])
+                           "skipiter", "free", "kwskip1", "kwskip2", "synid", "synchain", "synchainkw", "wsterm", "span", "spanchain", "kwcross",
+                           "ctxbol", "ctxbehind", "ctxword", "ctxdir"])
     var = VARIANTS[var_name]
     T = list(var["T"])
     pool = list(rng.choice(NT_POOLS))
@@ -1588,7 +1763,12 @@ def gen_spec(rng, malformed_share=0.05, hidden_share=0.04, ll1_share=0.2, dfs_sh
         g, kind = gen_malformed(rng, T, nts)
         gen = "malformed"
     elif r < malformed_share + hidden_share:
-        g, gen = gen_hidden_rec(rng, T, nts), "hiddenrec"
+        if rng.random() < 0.3:
+            if len(nts) < 2 and rng.random() < 0.8:
+                nts = pool[:rng.choice([2, 3, 4])]
+            g, gen = gen_nobase_cycle(rng, T, nts), "nobase"
+        else:
+            g, gen = gen_hidden_rec(rng, T, nts), "hiddenrec"
     elif r < malformed_share + hidden_share + dfs_share:
         if len(nts) < 3:
             nts = pool[:rng.choice([3, 4, 5])]
@@ -1677,6 +1857,14 @@ def gen_spec(rng, malformed_share=0.05, hidden_share=0.04, ll1_share=0.2, dfs_sh
         meta["anytoken"] = 1
     if repeated:
         meta["repeated"] = 1
+    for _, td in g:
+        if isinstance(td, dict) and td["t"] == "seq":
+            for i, a in enumerate(td["args"]):
+                if isinstance(a, dict):
+                    meta["anytoken"] = 1
+                    meta["seqax"] = "last" if i == len(td["args"]) - 1 else ("first" if i == 0 else "middle")
+        if isinstance(td, dict) and td["t"] == "list" and td["args"][2] is None:
+            meta["nodelim"] = "brackets" if td["args"][0] is not None else "bare"
     if spec.get("kinds"):
         meta["skipkind"] = spec["kinds"]["skip"]
     if kind == "bad-skip":           # skip_tokens names a token the tokenizer does not know: GrammarError
@@ -1700,7 +1888,8 @@ def gen_ll_cases(rng, n_grammars, maxlen, extra_long=0, rec_maxlen=2, malformed_
         meta["ref"] = "malformed" if not ok else ("left-recursive" if rec else "ok")
         ml = maxlen if (ok and not rec) else rec_maxlen
         words = list(all_strings(var["T"], ml))
-        names = set(var["lex"].values()) | ({"w"} if "free" in var else set()) | set(var.get("spanlex", ()))
+        names = set(var["lex"].values()) | ({"w"} if "free" in var else set()) | set(var.get("spanlex", ())) | set(var.get("ctxlex", ()))
+        n_enum = len(words)
         if ok and not rec:
             for w in sample_sentences(rng, user_grammar(spec), start_of(spec), sentences, sent_maxlen):
                 if w not in words and all(t in names for t in w):   # AnyTokenExcept also lists the skipped names
@@ -1728,7 +1917,7 @@ def gen_ll_cases(rng, n_grammars, maxlen, extra_long=0, rec_maxlen=2, malformed_
             sib = dict(spec, tok=[list(x) for x in spec["tok"]] + [["Zq", "q"]])
             few = texts[:13] + texts[40:][:25]
             qtexts = []
-            if "free" not in var and "spanlex" not in var:
+            if "free" not in var and "spanlex" not in var and "ctx" not in var:
                 for t in few[:12]:
                     cut = rng.randint(0, len(t))
                     qtexts.append(t[:cut] + var["sep"] + "q" + var["sep"] + t[cut:])
@@ -1739,7 +1928,7 @@ def gen_ll_cases(rng, n_grammars, maxlen, extra_long=0, rec_maxlen=2, malformed_
                                   lexmap=dict(var["lex"], q="Zq"))
             continue
         line_texts = []
-        if ok and not rec and (var_name in ("free", "wsterm", "span", "spanchain") or rng.random() < 0.15):
+        if ok and not rec and (var_name in ("free", "wsterm", "span", "spanchain") or rng.random() < (0.5 if "ctx" in var else 0.15)):
             line_texts = [t for t in texts if rng.random() < 0.2][:30]
         seqs = []
         if ok and not rec:
@@ -1762,12 +1951,15 @@ def gen_ll_cases(rng, n_grammars, maxlen, extra_long=0, rec_maxlen=2, malformed_
                 meta["observers"] = len(obs)
             if rng.random() < 0.35:      # every combination of the documented keyword arguments of parse
                 keys = [k for k in user_grammar(spec)]
-                for _ in range(rng.randint(2, 6)):
-                    fl = "".join(c for c in "dcn" if rng.random() < 0.5)
+                combos = ["", "d", "c", "n", "dc", "dn", "cn", "dcn"]
+                rng.shuffle(combos)
+                sent_texts = texts[n_enum:]          # sampled sentences: mostly accepted
+                for fl in combos[:rng.randint(2, 6)]:
                     if "free" not in var and "spanlex" not in var and rng.random() < 0.15:
                         fl += "l"
                     x = rng.choice(keys) if (keys and rng.random() < 0.3) else None
-                    kwcalls.append((fl, x, rng.choice(texts)))
+                    t = rng.choice(sent_texts) if (sent_texts and x is None and rng.random() < 0.7) else rng.choice(texts)
+                    kwcalls.append((fl, x, t))
                 meta["kwcalls"] = len(kwcalls)
         yield make_case(spec, var_name, words, texts, meta, diags=diags, seqs=seqs, line_texts=line_texts, obs=obs,
                         kwcalls=kwcalls)
@@ -1819,34 +2011,83 @@ def g_first_is_unit(g, sym):
     return d[sym][0][0].startswith("M")
 
 
+def _join(items, sep):
+    out = []
+    for k, it in enumerate(items):
+        if k:
+            out.extend(sep)
+        out.extend(it)
+    return out
+
+
+CLEANUP_MAX_DEPTH = 250     # default parse() (do_cleanup=True) is only called when the derivation tree is at most this deep
+
 LONG_SHAPES = [
-    # (productions, start, sentence builder n -> token names, non-sentence builder)
-    ([["E", [["L", "c"]]], ["L", [["a", "L"], []]]], "E", lambda n: ["a"] * n + ["c"], lambda n: ["a"] * n + ["c", "c"]),
-    ([["E", [["L", "c"]]], ["L", [["I", "L"], []]], ["I", [["a"], ["b"]]]], "E",
-     lambda n: ["a", "b"] * (n // 2) + ["c"], lambda n: ["a", "b"] * (n // 2) + ["c", "a"]),
-    ([["E", [["a", "T9"]]], ["T9", [["b", "a", "T9"], ["c"]]]], "E",
-     lambda n: ["a"] + ["b", "a"] * (n // 2) + ["c"], lambda n: ["a"] + ["b", "a"] * (n // 2) + ["c", "b"]),
-    ([["E", [["S9", "c"]]], ["S9", {"t": "seq", "args": ["a", "B"]}], ["B", [["b"]]]], "E",
-     lambda n: ["a", "b"] * (n // 2) + ["c"], lambda n: ["a", "b"] * (n // 2) + ["c", "c"]),
-    ([["E", [["a", "E", "b"], ["c"]]]], "E", lambda n: ["a"] * (n // 2) + ["c"] + ["b"] * (n // 2),
-     lambda n: ["a"] * (n // 2) + ["c"] + ["b"] * (n // 2) + ["b"]),
+    # user-written right recursion: the derivation tree is as deep as the input is long.
+    # prods, start, yes/no: n -> token names of a sentence / non-sentence, depth: n -> levels of the derivation tree
+    dict(name='rec-a', prods=[["E", [["L", "c"]]], ["L", [["a", "L"], []]]], yes=lambda n: ["a"] * n + ["c"],
+         no=lambda n: ["a"] * n + ["c", "c"], depth=lambda n: n + 2),
+    dict(name='rec-item', prods=[["E", [["L", "c"]]], ["L", [["I", "L"], []]], ["I", [["a"], ["b"]]]],
+         yes=lambda n: ["a", "b"] * (n // 2) + ["c"], no=lambda n: ["a", "b"] * (n // 2) + ["c", "a"], depth=lambda n: n + 3),
+    dict(name='rec-pair', prods=[["E", [["a", "T9"]]], ["T9", [["b", "a", "T9"], ["c"]]]],
+         yes=lambda n: ["a"] + ["b", "a"] * (n // 2) + ["c"], no=lambda n: ["a"] + ["b", "a"] * (n // 2) + ["c", "b"],
+         depth=lambda n: n // 2 + 3),
+    dict(name='rec-nest', prods=[["E", [["a", "E", "b"], ["c"]]]], yes=lambda n: ["a"] * (n // 2) + ["c"] + ["b"] * (n // 2),
+         no=lambda n: ["a"] * (n // 2) + ["c"] + ["b"] * (n // 2) + ["b"], depth=lambda n: n // 2 + 2),
+    # containers (`items`: n = number of items): the RAW tree holds a tail chain as long as the container, the derivation
+    # of the user's grammar - a container is one node - is flat
+    dict(name='seq', prods=[["E", [["S9", "c"]]], ["S9", {"t": "seq", "args": ["a", "B"]}], ["B", [["b"]]]], items=True,
+         yes=lambda n: ["a", "b"] * (n // 2) + ["c"], no=lambda n: ["a", "b"] * (n // 2) + ["c", "c"], depth=lambda n: 4),
+    # a ProdSequence whose AnyTokenExcept member is NOT the last argument
+    dict(name='seq-ax', prods=[["E", [["S9", "c"]]], ["S9", {"t": "seq", "args": [{"ax": ["a", "c", "SPACE"]}, "A9"]}], ["A9", [["a"]]]],
+         items=True, yes=lambda n: ["b", "a"] * (n // 2) + ["c"], no=lambda n: ["b", "a"] * (n // 2) + ["c", "c"],
+         depth=lambda n: 4),
+    # ListProds: delimiter without brackets / brackets + delimiter + final delimiter / NO delimiter, no brackets
+    dict(name='list-delim', prods=[["E", [["L9", "c"]]], ["L9", {"t": "list", "args": [None, "a", "b", None, None, None]}]], items=True, big=5000,
+         yes=lambda n: _join([["a"]] * n, ["b"]) + ["c"], no=lambda n: _join([["a"]] * n, ["b"]) + ["b", "c"], depth=lambda n: 3),
+    dict(name='list-brackets', prods=[["E", [["L9"]]], ["L9", {"t": "list", "args": ["d", "I", "c", "e", 1, None]}], ["I", [["a"], ["b"]]]],
+         items=True, var="plain5", yes=lambda n: ["d"] + _join([["a"], ["b"]] * (n // 2), ["c"]) + ["c", "e"],
+         no=lambda n: ["d"] + _join([["a"], ["b"]] * (n // 2), ["c"]) + ["c", "c", "e"], depth=lambda n: 4),
+    dict(name='list-nodelim', prods=[["E", [["L9", "c"]]], ["L9", {"t": "list", "args": [None, "I", None, None, None, None]}], ["I", [["a"], ["b"]]]],
+         items=True, yes=lambda n: ["a", "b"] * (n // 2) + ["c"], no=lambda n: ["a", "b"] * (n // 2) + ["c", "a"],
+         depth=lambda n: 4),
+    # MapProds
+    dict(name='map', prods=[["E", [["M9"]]], ["M9", {"t": "map", "args": ["d", "K", "b", "V", "c", "e", None, None]}], ["K", [["a"]]],
+                ["V", [["a"], ["b"]]]], items=True, var="plain5", big=2000,
+         yes=lambda n: ["d"] + _join([["a", "b", "a"], ["a", "b", "b"]] * (n // 2), ["c"]) + ["e"],
+         no=lambda n: ["d"] + _join([["a", "b", "a"], ["a", "b", "b"]] * (n // 2), ["c"]) + ["c", "c", "e"], depth=lambda n: 5),
 ]
 
 
-def gen_long_cases(rng, sizes=(150, 500, 2000), shapes=None):
-    """right-recursive LL(1) grammars (the shape lists and sequences have) on long inputs: a sentence and a
-    non-sentence whose already matched part holds a subtree `n` levels deep; membership is known by construction"""
-    var = VARIANTS["plain"]
-    for prods, start, yes, no in (shapes or LONG_SHAPES):
-        spec = {"tok": [list(x) for x in var["tok"]], "syn": {}, "kw": [], "skip": None, "start": start,
-                "prods": [[k, (dict(a) if isinstance(a, dict) else [list(x) for x in a])] for k, a in prods]}
-        texts, member = [], {}
-        for n in sizes:
-            for w, isin in ((yes(n), True), (no(n), False), (yes(n)[:-1], False)):
+def gen_long_cases(rng, sizes=(150, 500, 2000), shapes=None, item_sizes=None, cleanup=True, big=None):
+    """right-recursive LL(1) grammars (user-written, and the shape lists / maps / sequences have) on long inputs: a
+    sentence and a non-sentence whose already matched part holds a subtree `n` levels deep; membership is known by
+    construction.  Every text is parsed with do_cleanup=False (`p`) and - when the derivation tree is at most
+    CLEANUP_MAX_DEPTH levels deep - with the default do_cleanup=True (`px c`).  Containers get `item_sizes` items
+    (default: the first of `sizes`, one size in 990..1100) and `big` items (default: what the shape says - 5000 for a
+    list, 2000 for a map, nothing for the others; the Lean model needs quadratic time; False: none).  `shapes`: names."""
+    if item_sizes is None:
+        item_sizes = (sizes[0], rng.randint(990, 1100))
+    for sh in LONG_SHAPES:
+        if shapes is not None and sh["name"] not in shapes:
+            continue
+        var_name = sh.get("var", "plain")
+        var = VARIANTS[var_name]
+        spec = {"tok": [list(x) for x in var["tok"]], "syn": {}, "kw": [], "skip": None, "start": "E",
+                "prods": [[k, (dict(a) if isinstance(a, dict) else [list(x) for x in a])] for k, a in sh["prods"]]}
+        texts, member, kwcalls = [], {}, []
+        extra = [] if big is False else ([big if big is not None else sh["big"]] if (big is not None or "big" in sh) else [])
+        for n in (tuple(item_sizes) + tuple(extra) if sh.get("items") else sizes):
+            for w, isin in ((sh["yes"](n), True), (sh["no"](n), False), (sh["yes"](n)[:-1], False)):
                 t = " ".join(w)
                 texts.append(t)
                 member[t] = isin
-        c = make_case(spec, "plain", [], texts, {"gen": "long", "ref": "ok", "nts": len(prods), "start": "explicit"}, diags=())
+                if cleanup and sh["depth"](n) <= CLEANUP_MAX_DEPTH:
+                    kwcalls.append(("c", None, t))
+        meta = {"gen": "long", "ref": "ok", "nts": len(sh["prods"]), "start": "explicit"}
+        if kwcalls:
+            meta["cleanup"] = "long"
+        c = make_case(spec, var_name, [], texts, meta, diags=(), kwcalls=kwcalls)
         c["member"] = member
         yield c
 
@@ -1873,7 +2114,7 @@ def _respec(case):
     """decode the case back into (spec, texts, diags)"""
     spec, _ = dec_g(case["lines"][0])
     spec["prods"] = source_prods(spec)
-    texts, diags, seqs = [], [], []
+    texts, diags, seqs, ltexts, kwc = [], [], [], [], []
     lines = case["lines"][1:]
     i = 0
     while i < len(lines):
@@ -1886,23 +2127,39 @@ def _respec(case):
             i += 1                      # the plain parse that follows belongs to the sequence
         elif op == "p":
             texts.append(dec_p(l))
-        elif op != "amb":
+        elif op == "pl":
+            ltexts.append(dec_p(l))
+        elif op == "px":
+            st_, _, fl_ = p_info(l)
+            kwc.append((fl_, st_, dec_p(l)))
+        elif op in DIAG_OPS:
             diags.append(op)
         i += 1
-    return spec, texts, diags, seqs
+    return spec, texts, diags, seqs, ltexts, kwc
 
 
 def shrink(case):
-    spec, texts, diags, seqs = _respec(case)
+    spec, texts, diags, seqs, ltexts, kwc = _respec(case)
     var_name = case["meta"].get("variant", "plain")
 
-    def mk(spec2, texts2, diags2=diags, seqs2=None):
+    def mk(spec2, texts2, diags2=diags, seqs2=None, ltexts2=(), kwc2=()):
         try:
-            return make_case(spec2, var_name, [], texts2, case["meta"], diags=tuple(diags2), lexmap=case["lexmap"],
-                             seqs=seqs if seqs2 is None else seqs2)
+            c = make_case(spec2, var_name, [], texts2, case["meta"], diags=tuple(diags2), lexmap=case["lexmap"],
+                          seqs=seqs if seqs2 is None else seqs2, line_texts=ltexts2, kwcalls=kwc2)
         except AssertionError:
             return None
+        if "member" in case:
+            c["member"] = {t: v for t, v in case["member"].items()}
+        return c
     out = []
+    if ltexts or kwc:             # (the other candidates drop the list-of-lines and keyword-argument calls)
+        out.append(mk(spec, texts, seqs2=[]))
+        out.append(mk(spec, [], seqs2=[], ltexts2=ltexts))
+        out.append(mk(spec, [], seqs2=[], kwc2=kwc))
+        for q in kwc[:20]:
+            out.append(mk(spec, [], seqs2=[], kwc2=[q]))
+        for q in ltexts[:20]:
+            out.append(mk(spec, [], seqs2=[], ltexts2=[q]))
     if diags:
         out.append(mk(spec, texts, []))
     if seqs:
@@ -1940,7 +2197,16 @@ def shrink(case):
                 s3["prods"][i][1][j] = alts[j][:k] + alts[j][k + 1:]
                 out.append(mk(s3, texts))
     for t in texts:
-        if len(t) > 1:
+        if len(t) > 120:          # a long input: cut out blocks of lexemes (an even number, so that pairs stay pairs)
+            ws = t.split(" ")
+            for blk in (len(ws) // 2, len(ws) // 4, len(ws) // 8, 16, 4, 2):
+                blk -= blk % 2
+                if 2 <= blk < len(ws):
+                    for st in sorted(set((0, (len(ws) - blk) // 2 - ((len(ws) - blk) // 2) % 2, len(ws) - blk - 1))):
+                        t2 = " ".join(ws[:st] + ws[st + blk:])
+                        if raw_lex(spec, t2) is not None:
+                            out.append(mk(spec, [t2]))
+        elif len(t) > 1:
             for k in range(len(t)):
                 t2 = t[:k] + t[k + 1:]
                 if raw_lex(spec, t2) is not None:
@@ -2038,7 +2304,8 @@ def tags(case, replies):
         yield "start:" + m["start"]
     if "malformed" in m:
         yield "malformed:" + m["malformed"]
-    for k in ("emptykey", "parsers", "skipkind", "threads", "anytoken", "repeated", "observers", "kwcalls", "shareditems"):
+    for k in ("emptykey", "parsers", "skipkind", "threads", "anytoken", "repeated", "observers", "kwcalls", "shareditems",
+              "seqax", "nodelim", "nobase", "cleanup"):
         if k in m:
             yield "%s:%s" % (k, m[k])
     for line, rep in zip(case["lines"], replies):
